@@ -46,12 +46,16 @@ def read_lines(
     first_indent: str,
     next_indent: str,
     breaks_after: dict[int, str] | None = None,
+    glued_after: set[int] | None = None,
 ) -> list[LineInfo]:
     """
     breaks_after: {word index: "hard" | "soft"} - a newline is required after that word;
     "hard" additionally requires the trailing backslash.
+    glued_after: indices i whose word is directly adjacent to word i+1 in the source (no space): in the output the
+    two are adjacent or on different lines, never separated by a space.
     """
     breaks_after = breaks_after or {}
+    glued_after = glued_after or set()
     infos: list[LineInfo] = []
     p = 0
     for li, line in enumerate(lines):
@@ -85,6 +89,10 @@ def read_lines(
                 break
             if need:
                 raise Mismatch("keptnewline", f"line {li}: kept newline after {words[p-1]!r} lost")
+            if (p - 1) in glued_after:
+                if rest[pos] == " ":
+                    raise Mismatch("adjacency", f"line {li}: a space appeared between adjacent {words[p-1]!r} and {words[p]!r}")
+                continue  # adjacent on the same line: no separator
             if rest[pos] != " " or rest.startswith("  ", pos):
                 raise Mismatch("words", f"line {li}: bad separator at {rest[pos:]!r} after {words[p-1]!r}")
             pos += 1
@@ -106,6 +114,7 @@ def prove_wrap(
     breaks_after: dict[int, str] | None = None,
     tag: str = "",
     sentence_ends: set[int] | None = None,
+    glued_after: set[int] | None = None,
 ) -> None:
     """
     Integer obligations, decided by z3 on the current path:
@@ -139,7 +148,12 @@ def prove_wrap(
                 ex.prove(fits | _not(cause_b) | cause_a, f"{tag}width-bound:hard-break-backslash", {"line": i, "body": inf.body})
         if fill and i + 1 < len(infos) and inf.last not in breaks_after:
             nxt = words[inf.last + 1]
-            ex.prove(total + 1 + sym_len(nxt) > W, f"{tag}maximal", {"line": i, "body": inf.body, "next": nxt})
+            # adjacent tags are tokenized with a temporary space that is removed afterwards: the filler counted one
+            # column per such pair on this line (cause E, separately keyed)
+            k = len([g for g in (glued_after or ()) if inf.first <= g < inf.last])
+            ex.prove(total + k + 1 + sym_len(nxt) > W, f"{tag}maximal", {"line": i, "body": inf.body, "next": nxt})
+            if k:
+                ex.prove(total + 1 + sym_len(nxt) > W, f"{tag}maximal:adjacent-tags-counted-with-space", {"line": i, "body": inf.body, "next": nxt})
 
 
 def _not(c: Any) -> Any:
